@@ -210,6 +210,8 @@ class Types:
             return 'uptr', t
         if n in ('std::function', 'function'):
             return 'function', t
+        if n in ('std::__detail::_Node_iterator', 'std::__detail::_Node_const_iterator', 'std::__detail::_Node_iterator_base'):
+            return 'iter', t
         s = self.strip_ns(n)
         if s == 'BlockTable':
             return 'bt', t
@@ -272,6 +274,8 @@ class Types:
             return self.ctype(t.args[0]) + ' *'
         if cls == 'function':
             return 'struct fnobj'
+        if cls == 'iter':
+            return self.ctype(t.args[0]) + ' *'     # iterator = pointer to the element, null = end()
         # opaque handles (library types): configured names only
         key = t.name
         if key in self.opaque:
@@ -302,6 +306,8 @@ class Types:
             return 'bt_' + self.mangle(t.args[0])
         if cls == 'umap':
             return 'umap_' + self.mangle(t.args[0]) + '_' + self.mangle(t.args[1])
+        if cls == 'iter':
+            return 'it_' + self.mangle(t.args[0])
         if cls == 'handle':
             return re.sub(r'[^A-Za-z0-9]', '_', t.name)
         raise LowerError("cannot mangle %r" % t)
